@@ -288,13 +288,16 @@ theorem memcpy_post_witness :
     verdict Rules.current gMemcpy = some ([[0], [1], [2]], true, true) := by decide +kernel
 
 open Witness in
-/-- **still open** (finding `relu-and-tanh-sigmoid-operators-in-one-pass-keep-only-the-last-activation`): the UNCHANGED rules put
-    a TANH / SIGMOID operator and a RELU-type operator into one pass (with a created average pool); the shape clause holds, the
-    one-activation clause fails, and by `packed_pass_semantics_witness` (2) / (3) the hardware operation then differs from
-    the sequence -/
+/-- **still open** (finding `relu-and-tanh-sigmoid-operators-in-one-pass-keep-only-the-last-activation`): without the rule of the
+    proposed repair C01-31 (`mixCheck`; `Gen.PassPacking.reluTanhSigmoidRule` says whether the module under verification has it) a
+    TANH / SIGMOID operator and a RELU-type operator end up in one pass (with a created average pool); the shape clause holds,
+    the one-activation clause fails, and by `packed_pass_semantics_witness` (2) / (3) the hardware operation then differs from
+    the sequence. With the rule each gets its own pass. -/
 theorem relu_tanh_in_one_pass_witness :
-    verdict Rules.current gSigmoidRelu = some ([[0], [1, 2]], true, false) ∧
-    verdict Rules.current gReluTanh = some ([[0], [1, 2]], true, false) := by decide +kernel
+    verdict { Rules.current with mixCheck := false } gSigmoidRelu = some ([[0], [1, 2]], true, false) ∧
+    verdict { Rules.current with mixCheck := false } gReluTanh = some ([[0], [1, 2]], true, false) ∧
+    verdict { Rules.current with mixCheck := true } gSigmoidRelu = some ([[0], [1], [2]], true, true) ∧
+    verdict { Rules.current with mixCheck := true } gReluTanh = some ([[0], [1], [2]], true, true) := by decide +kernel
 
 
 /-! ## non-vacuity: the witness graphs are well-formed and the traversal succeeds on them -/
